@@ -15,7 +15,8 @@ GENERIC = (" Generic obligations of every check: (RANGE-0): no loop or comprehen
            "it was truncated; (LOOP-0) every for loop of an analysed function can reach its second item; "
            "(SWAP-0) no parameter of an analysed / anchored function lands in another parameter's slot of its callee; (DROP-0) a pass-through hands on every "
            "parameter its callee also takes; (REARM-0) a callback that renews its own one-shot subscription renews it on every returning path after evaluating; "
-           "(MEMO-0) a function memoised by argument value neither answers from changeable state nor hands out a mutable object it built.")
+           "(MEMO-0) a function memoised by argument value neither answers from changeable state nor hands out a mutable object it built; (CONFIG-0) no validated configuration entry is edited in place, "
+           "directly or through an alias.")
 checks = []
 for p in ALL:
     if p not in CLAIMS:
